@@ -2,8 +2,14 @@
    (EasyFEA/Models/Elastic/_laws.py:77-125 `C`/`S` getters, Utilities/_params.py:131-146
    `_Parameter.__set__` -> `Need_Update()`, Updatable.needUpdate defaulting to True).
 
-   State = current parameters, the stored pair (C,S) (None before the first _Update) and the
-   needUpdate flag.  [behavior] is the class's `_Behavior` (any function of the parameters). *)
+   State = current parameter CONTENTS, the stored pair (C,S) (None before the first _Update) and
+   the needUpdate flag.  [behavior] is the class's `_Behavior` (any function of the parameters).
+
+   Aliasing: a parameter may be a user-owned array.  [SetParam alias p] is an assignment through
+   the descriptor after which the parameter contents are p; [alias] tells whether the assigned
+   object IS the object already stored (the user edited his array in place and re-assigned it) —
+   the faithful step ignores it: every assignment invalidates.  [step_guarded] is the variant with
+   an "unchanged object" shortcut; it is refuted below. *)
 From Coq Require Import List Bool.
 Import ListNotations.
 
@@ -14,7 +20,7 @@ Section Lazy.
   Record st := { prm : Prm; stored : option Law; need : bool }.
 
   Inductive op :=
-  | SetParam (p : Prm)        (* any descriptor assignment: stores the value, calls Need_Update() *)
+  | SetParam (alias : bool) (p : Prm)   (* any descriptor assignment: contents become p, Need_Update() is called *)
   | Read                      (* material.C or material.S *)
   | NotifyOnly.               (* Need_Update() called directly *)
 
@@ -24,7 +30,7 @@ Section Lazy.
   (* one step; a Read also returns the value handed to the caller *)
   Definition step (s : st) (o : op) : st * option Law :=
     match o with
-    | SetParam p => ({| prm := p; stored := stored s; need := true |}, None)
+    | SetParam _ p => ({| prm := p; stored := stored s; need := true |}, None)
     | NotifyOnly => ({| prm := prm s; stored := stored s; need := true |}, None)
     | Read =>
         if need s
@@ -51,7 +57,7 @@ Section Lazy.
 
   (* current parameters after a sequence of operations *)
   Fixpoint last_prm (p : Prm) (ops : list op) : Prm :=
-    match ops with [] => p | SetParam q :: t => last_prm q t | _ :: t => last_prm p t end.
+    match ops with [] => p | SetParam _ q :: t => last_prm q t | _ :: t => last_prm p t end.
 
   Lemma prm_run ops : forall s, prm (run s ops) = last_prm (prm s) ops.
   Proof.
@@ -78,6 +84,22 @@ Section Lazy.
   Proof.
     intros s H. unfold inv in H. cbn. destruct (need s) eqn:E; cbn; auto. now rewrite E.
   Qed.
+  (* ---- the "unchanged object" shortcut: an assignment of the very object already stored does
+     not invalidate.  With in-place edits the contents do change, so the property fails. *)
+  Definition step_guarded (s : st) (o : op) : st * option Law :=
+    match o with
+    | SetParam true p => ({| prm := p; stored := stored s; need := need s |}, None)
+    | _ => step s o
+    end.
+
+  Fixpoint run_guarded (s : st) (ops : list op) : st :=
+    match ops with [] => s | o :: t => run_guarded (fst (step_guarded s o)) t end.
+
+  Theorem guarded_shortcut_refuted : forall p q : Prm, behavior p <> behavior q ->
+    exists ops, snd (step_guarded (run_guarded (init p) ops) Read) <> Some (behavior (last_prm p ops)).
+  Proof.
+    intros p q H. exists [Read; SetParam true q]. cbn. intro E. injection E as E. auto.
+  Qed.
 End Lazy.
 
 (* executable instance used by the correspondence run: parameters = list of integers,
@@ -91,6 +113,6 @@ Definition run_reads {P : Type} (p0 : P) (ops : list (op P)) : list (option P) :
      end) (init P P p0) ops.
 
 Example lazy_nonvacuous :
-  run_reads 1 [Read nat; SetParam nat 2; SetParam nat 3; Read nat; Read nat; NotifyOnly nat; Read nat]
+  run_reads 1 [Read nat; SetParam nat false 2; SetParam nat true 3; Read nat; Read nat; NotifyOnly nat; Read nat]
   = [Some 1; Some 3; Some 3; Some 3].
 Proof. reflexivity. Qed.
